@@ -340,6 +340,10 @@ func (sc *ShardingController) parseSchedulerConfigsFromOptions() {
 			klog.Errorf("Invalid scheduler config: %v", err)
 			continue
 		}
+		if err := validatePolicyChain(i, configSpec.Name, configSpec.Policies); err != nil {
+			klog.Errorf("Invalid scheduler config: %v", err)
+			continue
+		}
 
 		sc.schedulerConfigs = append(sc.schedulerConfigs, schedulerConfigFromSpec(configSpec))
 		klog.Infof("Added scheduler config: %s with %d policies", configSpec.Name, len(configSpec.Policies))
